@@ -30,6 +30,9 @@ const traceSet = "openat,read,pread64,write,pwrite64,close,fstat,newfstatat,fchm
 
 var shfmtBin = filepath.Join(kit.VerifDir(), "bin", "shfmt-under-test")
 
+// knownKeys are the violation keys listed as known findings for C35.
+var knownKeys = map[string]bool{}
+
 type Target struct {
 	Name    string `json:"name"`              // relative to the work directory
 	Kind    string `json:"kind"`              // regular | symlink | fifo | dir
@@ -54,6 +57,9 @@ type KillPoint struct {
 	When    int    `json:"when"`   // occurrence index of that syscall on the main thread, 1-based
 	Masked  string `json:"masked"` // the call with temp suffixes masked
 	AfterTemp bool `json:"after_temp_exists"`
+	// Err, when set (e.g. "EIO"), makes the call fail with that error instead
+	// of killing the process: the run then completes by itself.
+	Err string `json:"err,omitempty"`
 }
 
 type Replay struct {
@@ -183,6 +189,13 @@ func genScenario(root uint64, idx int) *Scenario {
 			} else {
 				sc.Args = append(sc.Args, "broken.sh")
 			}
+		}
+	case 3: // a name so long that no ".<name><random>" sibling can be created (ENAMETOOLONG)
+		long := strings.Repeat("n", 240) + ".sh"
+		sc.Targets = append(sc.Targets, Target{Name: prefix + long, Kind: "regular", Mode: kit.Pick(r2, modes),
+			Content: base64.StdEncoding.EncodeToString(genContent(r2, kit.Pick(r2, []int{200, 7000}), false))})
+		if !useDir {
+			sc.Args = append(sc.Args, long)
 		}
 	}
 	if useDir {
@@ -353,7 +366,9 @@ func (w *world) run(sc *Scenario, kp *KillPoint) (*runResult, error) {
 	logPath := filepath.Join(w.root, "strace.log")
 	os.Remove(logPath)
 	args := []string{"-f", "-o", logPath, "-e", "trace=" + traceSet}
-	if kp != nil {
+	if kp != nil && kp.Err != "" {
+		args = append(args, "-e", fmt.Sprintf("inject=%s:error=%s:when=%d", kp.Syscall, kp.Err, kp.When))
+	} else if kp != nil {
 		args = append(args, "-e", fmt.Sprintf("inject=%s:error=ENOSYS:signal=SIGKILL:when=%d", kp.Syscall, kp.When))
 	}
 	args = append(args, shfmtBin)
@@ -418,6 +433,9 @@ func (w *world) run(sc *Scenario, kp *KillPoint) (*runResult, error) {
 		fd := ""
 		if i := strings.IndexAny(m[3], ",)"); i > 0 {
 			fd = strings.TrimSpace(m[3][:i])
+		}
+		if (c.name == "write" || c.name == "read") && (fd == "0" || fd == "1" || fd == "2") {
+			path = false // messages that merely mention a scenario path
 		}
 		if path {
 			c.relevant = true
@@ -530,7 +548,10 @@ type verdict struct {
 	detail string
 }
 
-func judge(orig, ref, got map[string]entry, temps []string, killed bool, refExit, exit int) verdict {
+// errInjected: the run completed by itself after one of its system calls was
+// made to fail; its files must be whole and no temporary file may stay, but
+// it need not have formatted anything and its exit status is its own.
+func judge(orig, ref, got map[string]entry, temps []string, killed, errInjected bool, refExit, exit int) verdict {
 	var paths []string
 	seen := map[string]bool{}
 	for p := range orig {
@@ -559,7 +580,7 @@ func judge(orig, ref, got map[string]entry, temps []string, killed bool, refExit
 			if g.Sum != o.Sum && g.Sum != f.Sum {
 				return verdict{class: "torn-file", key: "torn-file", detail: fmt.Sprintf("%s holds neither its original bytes (%d bytes, %s) nor the formatted bytes (%d bytes, %s): %d bytes, %s", p, o.Size, o.Sum, f.Size, f.Sum, g.Size, g.Sum)}
 			}
-			if !killed && g.Sum != f.Sum {
+			if !killed && !errInjected && g.Sum != f.Sum {
 				return verdict{class: "completed-run-differs", key: "completed-run-differs", detail: fmt.Sprintf("%s differs from the reference completed run", p)}
 			}
 			if g.Mode != o.Mode {
@@ -575,7 +596,7 @@ func judge(orig, ref, got map[string]entry, temps []string, killed bool, refExit
 		if len(temps) > 0 {
 			return verdict{class: "temp-left-behind", key: "temp-left-behind", detail: fmt.Sprintf("a completed run left temporary files: %v", temps)}
 		}
-		if exit != refExit {
+		if exit != refExit && !errInjected {
 			return verdict{class: "exit-status-differs", key: "exit-status", detail: fmt.Sprintf("completed run exit status %d, reference %d", exit, refExit)}
 		}
 	}
@@ -597,11 +618,14 @@ type scenStats struct {
 	sample       any
 	refCalls     int
 	completedOK  bool
+	knownViols   []*Replay
+	errRuns      int
+	errSyscalls  kit.Counter
 	bigWrites    int
 }
 
 func runScenario(sc *Scenario, only *KillPoint) (*scenStats, error) {
-	st := &scenStats{idx: sc.Idx, distinct: map[string]bool{}, syscalls: kit.Counter{}}
+	st := &scenStats{idx: sc.Idx, distinct: map[string]bool{}, syscalls: kit.Counter{}, errSyscalls: kit.Counter{}}
 	w, err := newWorld(sc)
 	if err != nil {
 		return nil, err
@@ -632,7 +656,7 @@ func runScenario(sc *Scenario, only *KillPoint) (*scenStats, error) {
 			var temps []string
 			refAfter, temps = w.snapshot()
 			// completed-run oracle on the reference itself
-			v := judge(orig, refAfter, refAfter, temps, false, r.exit, r.exit)
+			v := judge(orig, refAfter, refAfter, temps, false, false, r.exit, r.exit)
 			st.completedOK = v.ok
 			if !v.ok {
 				st.viol = &Replay{Property: "C35", World: "C", Scenario: *sc, Class: v.class, Key: v.key, Detail: v.detail}
@@ -654,9 +678,14 @@ func runScenario(sc *Scenario, only *KillPoint) (*scenStats, error) {
 	}
 	kps := killPoints(ref)
 	st.refCalls = len(kps)
+	allKps := kps
 	if only != nil {
 		kps = []KillPoint{*only}
+		if only.Err != "" {
+			kps = nil // no kill run; the error-injection run below
+		}
 	}
+	_ = allKps
 	for _, c := range ref.calls {
 		if c.name == "write" && c.relevant && strings.Contains(c.text, "...") {
 			st.bigWrites++
@@ -711,10 +740,48 @@ func runScenario(sc *Scenario, only *KillPoint) (*scenStats, error) {
 			st.afterTemp++
 			st.distinct[fmt.Sprintf("%d/%s#%d", sc.Idx, kp.Syscall, kp.When)] = true
 		}
-		v := judge(orig, refAfter, got, temps, r.killed, ref.exit, r.exit)
+		v := judge(orig, refAfter, got, temps, r.killed, false, ref.exit, r.exit)
 		if !v.ok {
 			st.viol = &Replay{Property: "C35", World: "C", Scenario: *sc, Kill: &kp, Class: v.class, Key: v.key, Detail: v.detail + fmt.Sprintf(" [killed before %s, occurrence %d: %s]", kp.Syscall, kp.When, kit.Clip(kp.Masked, 200))}
 			return st, nil
+		}
+	}
+	// Error returns instead of kills, at the calls that finish the
+	// replacement once the temporary file exists: the run completes by
+	// itself and must then leave whole files and no temporary file.
+	if only == nil || only.Err != "" {
+		for _, kp := range kps {
+			if only != nil {
+				kp = *only
+			} else if !kp.AfterTemp || !(kp.Syscall == "write" || kp.Syscall == "fsync" || kp.Syscall == "renameat" || kp.Syscall == "rename" || kp.Syscall == "fchmod") {
+				continue
+			}
+			kp.Err = "EIO"
+			if err := w.materialise(sc); err != nil {
+				return nil, err
+			}
+			r, err := w.run(sc, &kp)
+			if err != nil {
+				return nil, err
+			}
+			got, temps := w.snapshot()
+			st.errRuns++
+			st.errSyscalls.Add(kp.Syscall, 1)
+			v := judge(orig, refAfter, got, temps, r.killed, true, ref.exit, r.exit)
+			if !v.ok {
+				kpc := kp
+				viol := &Replay{Property: "C35", World: "C", Scenario: *sc, Kill: &kpc, Class: v.class, Key: v.key + ":after-io-error:" + kp.Syscall, Detail: v.detail + fmt.Sprintf(" [the run completed (exit %d) after %s occurrence %d was made to fail with EIO: %s]", r.exit, kp.Syscall, kp.When, kit.Clip(kp.Masked, 200))}
+				if knownKeys[viol.Key] && only == nil {
+					// a listed finding must not hide what comes after it
+					st.knownViols = append(st.knownViols, viol)
+					continue
+				}
+				st.viol = viol
+				return st, nil
+			}
+			if only != nil {
+				break
+			}
 		}
 	}
 	if sc.Idx%7 == 0 && len(kps) > 0 {
@@ -758,6 +825,13 @@ func main() {
 		n, _ = strconv.Atoi(s)
 	}
 	fmt.Printf("VERIF_SEED=%d property=C35 tier=%s world=C scenarios=%d\n", root, tier, n)
+	if fs, err := kit.LoadFindings(); err == nil {
+		for _, f := range fs {
+			if f.Kind == "known" && f.Property == "C35" {
+				knownKeys[f.Key] = true
+			}
+		}
+	}
 	results := make([]*scenStats, n)
 	errs := make([]error, n)
 	var wg sync.WaitGroup
@@ -778,7 +852,8 @@ func main() {
 		os.Exit(2)
 	}
 	var (
-		killRuns, hits, misfires, afterTemp, discarded, refCalls, bigWrites, completed int
+		killRuns, hits, misfires, afterTemp, discarded, refCalls, bigWrites, completed, errRuns int
+		errSyscalls                                                                  = kit.Counter{}
 		distinct                                                           = map[string]bool{}
 		syscalls                                                           = kit.Counter{}
 		samples                                                            []any
@@ -800,6 +875,8 @@ func main() {
 		afterTemp += st.afterTemp
 		refCalls += st.refCalls
 		bigWrites += st.bigWrites
+		errRuns += st.errRuns
+		errSyscalls.Merge(st.errSyscalls)
 		if st.completedOK {
 			completed++
 		}
@@ -813,6 +890,7 @@ func main() {
 		if st.viol != nil {
 			viols = append(viols, st.viol)
 		}
+		viols = append(viols, st.knownViols...)
 		tmpKinds.Add(genScenario(root, i).Tmpdir, 1)
 	}
 	if discarded*3 > n {
@@ -848,7 +926,8 @@ func main() {
 	}
 	wall := time.Since(start)
 	cov := map[string]any{
-		"evaluations":         killRuns + completed,
+		"evaluations":         killRuns + completed + errRuns,
+		"io_error_injection_runs(EIO at write/fsync/rename/fchmod once the temp file exists; the run completes by itself)": map[string]any{"runs": errRuns, "by_syscall": errSyscalls},
 		"distinct_nontrivial": len(distinct),
 		"rule": "Scenarios (files of 0 B..200 KiB, formatted or not, 11 permission modes x 4 umasks, 1-3 targets or a walked directory, symlink/dangling symlink/FIFO targets, flag sets, TMPDIR on the same or another file system or inside the target directory) are drawn from the seed; for each scenario the fault-free run under strace gives the ordered list of file-system system calls of the main thread that touch the scenario (by path or by an fd opened from such a path), and EVERY one of them is used as a kill point: the scenario is restored and shfmt -w re-run with that call (syscall name, occurrence) replaced by SIGKILL before it executes. Oracle after a kill: every file holds exactly its original or exactly the formatted bytes, permission bits unchanged, symlinks/FIFOs/directories untouched, nothing lost or added apart from renameio temp files; completed runs: formatted bytes, original modes, no temp file left in the target directory or TMPDIR, exit status as the reference. Non-trivial: the kill point lies after the temporary file was created; distinct = distinct (scenario, syscall, occurrence).",
 		"samples":                       samples,
